@@ -244,7 +244,22 @@ def replay_script(impl, e):
     return h
 
 
+PARTIAL = [
+    "stored_eq_live_partial: outbound half in full; inbound half with the exact lag - stored+1 = live UNLESS the row stored "
+    "under the stored inbound counter is a SequenceReset m (then stored = m's MsgSeqNum, live = m's NewSeqNo) [D13, pinned]",
+    "stored_eq_live_without_jump_resets: stored = live exactly for histories without a SequenceReset whose NewSeqNo != "
+    "MsgSeqNum+1 (jumpReset, decidable); full statement stored_eq_live_full is a def, refuted by Findings.C09.not_stored_eq_live_full",
+    "restart_inbound / counted_implies_delivered: full for application frames (never counted-but-undelivered); the converse "
+    "exactly_once_full (delivered => counted) is a def, refuted by Findings.C09.not_exactly_once_full [D15, inherent]",
+    "scope of the history theorems: admissible events (no reset_seq_num(), no application frame carrying its own MsgSeqNum) and "
+    "runs without a swallowed / escaping exception (excFree); restart_no_number_reuse covers every crash point of send_msg, "
+    "crash points inside resend servicing are outside it (open finding C09-kill-during-resend-servicing-rewinds-outbound-counter)",
+]
+
+
 def correspondence(ctx):
+    for p in PARTIAL:
+        ctx.note("partial/scope: " + p)
     tmp = mktmp()
     impl = RImpl(tmp)
     try:
@@ -252,7 +267,7 @@ def correspondence(ctx):
         for e in corpus_scripts():
             hists.append(replay_script(impl, e))
         # kill sweep: every site of sampled single steps
-        nsweep = ctx.n(500, 6000)
+        nsweep = ctx.n(500, 3000)
         sweep_sites = 0
         segeq_lines = []
         for (a, sr, ev, lab) in sweep_cases(ctx.rng, nsweep):
@@ -271,7 +286,7 @@ def correspondence(ctx):
             h.ev(sr, ev, lab)
             h.restart()
             hists.append(h)
-        nh, hl = ctx.n(1500, 15000), ctx.n(25, 60)
+        nh, hl = ctx.n(1500, 12000), ctx.n(25, 60)
         for _ in range(nh):
             hists.append(random_history(impl, ctx.rng, hl, stats))
         drv = C.Driver()
@@ -331,7 +346,7 @@ def fields(m):
 def d13_shape(old: S.AbsConn, new: S.AbsConn) -> bool:
     """the finding's description, read off the journal the old object left: the inbound row stored under the
     stored inbound counter is a SequenceReset whose NewSeqNo is not its MsgSeqNum + 1, the old object's live
-    counter was that NewSeqNo and the new object expects MsgSeqNum + 1"""
+    counter was that NewSeqNo (>= 2) and the new object expects MsgSeqNum + 1"""
     row = dict(old.in_rows).get(old.stored_in)
     if row is None or row[0] != "4":
         return False
@@ -340,7 +355,8 @@ def d13_shape(old: S.AbsConn, new: S.AbsConn) -> bool:
         seq, new_no = int(f[34]), int(f[36])
     except (KeyError, ValueError):
         return False
-    return seq == old.stored_in and new_no != seq + 1 and old.next_in == new_no and new.next_in == seq + 1
+    # (`_finalize_message` journals a SequenceReset only when NewSeqNo - 1 > 0)
+    return seq == old.stored_in and new_no != seq + 1 and new_no > 1 and old.next_in == new_no and new.next_in == seq + 1
 
 
 class Session:
@@ -854,13 +870,13 @@ def oracle(ctx, disagreements, broken):
     failures = []
     try:
         # disagreeing histories first: re-run them under the history oracle's sentences
-        for d in disagreements[:50]:
+        for d in disagreements[:300]:
             h = d["input"].get("history")
             if h:
                 failures += replay_history_oracle(impl, h)
         rounds = ctx.n(1, 6) * (4 if broken else 1)
         failures += run_scenarios(impl, ctx.rng, rounds, stats)
-        history_oracle(impl, ctx.rng, ctx.n(250, 3000) * (4 if broken else 1), ctx.n(25, 50), stats, failures)
+        history_oracle(impl, ctx.rng, ctx.n(250, 2000) * (4 if broken else 1), ctx.n(25, 50), stats, failures)
         ctx.oracle_stats = {"failures": len(failures), **stats,
                             "sentences": ["restored counters = old counters at quiescent points", "restored counters "
                                           "never below completed work after a kill", "no new frame under a used number "
@@ -876,14 +892,24 @@ def oracle(ctx, disagreements, broken):
 
 
 def replay_history_oracle(impl, hist):
-    """run a recorded lock-step history (correspondence format) under the quiescent-restart sentences"""
+    """run a recorded lock-step history (correspondence format) under the quiescent-restart sentences;
+    a final restart is added when the script does not end with one"""
     out = []
     start = S.parse_conn_tokens(hist["start"])
     role = hist["role"]
+    if any(seq >= start.next_out for seq, _ in start.out_rows) or any(seq >= start.next_in for seq, _ in start.in_rows):
+        return out      # inconsistent store (rows above the counters): outside the quantifier
+    if start.stored_out + 1 != start.next_out or start.stored_in + 1 != start.next_in:
+        return out
     impl.new_file()
     impl.load(start)
     a, clean = start, True
-    for st in hist["script"]:
+    script = list(hist["script"])
+    if not script or script[-1][0] != "restart":
+        script.append(["restart"])
+    done = []
+    for st in script:
+        done.append(st)
         if st[0] == "ev":
             ev = parse_event(st[2])
             eff, _ = impl.run_event(st[1], ev)
@@ -894,9 +920,16 @@ def replay_history_oracle(impl, hist):
         elif st[0] == "restart":
             old = a
             a = S.parse_conn_tokens(impl.restart(role))
-            if clean and (a.next_out != old.next_out):
-                out.append({"signature": "C09-restored-counter-differs:out", "what": "restored outbound counter differs",
-                            "input": {"history": hist}, "expected": old.next_out, "observed": a.next_out})
+            inp = {"history": {"start": hist["start"], "role": role, "script": list(done)}}
+            if clean and a.next_out != old.next_out:
+                out.append({"signature": "C09-restored-counter-differs:out", "what": "restored outbound counter differs "
+                            "at a quiescent point of a run without exceptions", "input": inp,
+                            "expected": old.next_out, "observed": a.next_out})
+            if clean and a.next_in != old.next_in:
+                d13 = d13_shape(old, a)
+                out.append({"signature": SIG_D13 if d13 else "C09-restored-counter-differs:in",
+                            "what": "restored inbound counter differs at a quiescent point of a run without exceptions",
+                            "input": inp, "expected": old.next_in, "observed": a.next_in})
             clean = True
         else:
             ev = parse_event(st[2])
